@@ -144,7 +144,9 @@ Grew(m) == Len(hist'[m]) = Len(hist[m]) + 1
 Judge(m) ==
     LET v == Obs(m).v
         e6 == strain'[m]
-        fresh == Ev.ev = "Create" \/ Grew(m) IN
+        \* the validity of the INITIAL snapshot is promised for default-constructed minerals; a texture supplied by the
+        \* client (field default = FALSE) is the client's responsibility and is judged from its first update on
+        fresh == IF Ev.ev = "Create" THEN (IF Has(Ev, "default") THEN Ev.default ELSE TRUE) ELSE Grew(m) IN
     IF ~fresh THEN <<>>
     ELSE IF ~v.shapeOK THEN <<"snapshot-shape">>
     ELSE IF ~v.finite THEN <<"snapshot-not-finite">>
